@@ -7,7 +7,7 @@
 (*    out    the stdout lines written between this line and the next prompt ("ERR" for an error message line)            *)
 (*    intr   an interrupt was delivered while the line ran]                                                              *)
 (*   [op |-> "init", i]   starts a session (reset)                                                                      *)
-(*   [op |-> "end", exit, tail, steps_after, hang, lost]  fq returned                                                   *)
+(*   [op |-> "end", exit, tail, hang, at (kind of the line that was running when the session stopped moving), lost]  fq returned                                                   *)
 (* The state is a function of the logged lines, so a rejected event is reported (<<"REJECT", line, signature>>) and the  *)
 (* run goes on with the state the specification requires; the check reports the first rejection of a session.            *)
 EXTENDS Repl, Json
@@ -40,7 +40,7 @@ TNext ==
                                 ELSE "repl.output_of_line." \o a.k)
        [] e.op = "end" ->
             /\ UNCHANGED <<stack, slurp, over>>
-            /\ IF e.hang THEN Rej("repl.session_does_not_end") ELSE TRUE
+            /\ IF e.hang THEN Rej("repl.session_does_not_end.during_line." \o e.at) ELSE TRUE
             /\ IF e.lost THEN Rej("repl.interrupt_not_deliverable_while_line_runs") ELSE TRUE
             /\ IF ~e.hang /\ ~over THEN Rej("repl.fq_ended_with_loops_still_open") ELSE TRUE
             /\ IF ~e.hang /\ (e.exit # 0 \/ e.tail # <<>>) THEN Rej("repl.exit_status_or_output_at_end") ELSE TRUE
